@@ -292,6 +292,19 @@ def gen_retry(seed: int, kn: dict | None = None) -> dict:
         place["bs_shape"] = "sized"
     if r.random() < kn.get("p_cls_details", 0.08):
         cfg["cls_shape"] = "obj_details"
+    elif r.random() < kn.get("p_cls_shared", 0.08):
+        cfg["cls_shape"] = "obj_shared"
+    if cfg.get("strat_shape") is None and r.random() < kn.get("p_bound_strategy", 0.08):
+        cfg["strat_shape"] = "bound"
+    if cfg["result_classifier"] and r.random() < kn.get("p_res_exc", 0.08):
+        for c in calls:
+            for st in c["attempts"]:
+                if st["kind"] == "res" and not st.get("none"):
+                    st["as_exc"] = True           # the failing value is an exception instance that was returned, not raised
+    if r.random() < kn.get("p_long_deadline", 0.06):
+        cfg["deadline_us"] = r.choice([90_000_000_000, 176_400_000_000, 604_830_000_000])     # 25 h, 49 h, 7 d + 30 s
+        for c in calls:
+            c["values"] = [r.choice([7_200_000_000, 3_600_000_000, 60_000_000, 86_400_000_000, 10**12]) for _ in range(r.randint(1, 3))]
     if r.random() < kn.get("p_reuse_refreshed", 0.06):
         for c in calls:
             for st in c["attempts"]:
@@ -305,6 +318,8 @@ def gen_retry(seed: int, kn: dict | None = None) -> dict:
     if place["handler"] != "none" and kn.get("p_slow_handler") and r.random() < kn["p_slow_handler"]:
         for c in calls:
             c["handler_dur"] = [r.choice([0, 1000, 250_000, 500_000, 2_000_000]) for _ in range(r.randint(1, 3))]
+    if ncalls > 1 and entry.endswith(".context") and r.random() < kn.get("p_reuse_context", 0.5):
+        scn["reuse_context"] = True
     if r.random() < kn.get("p_late", 0.1):
         # some settings reach the live policy object only after construction (attribute assignment through the entry
         # object: the facades forward to their retry component); decorator / from_config entries are built complete
